@@ -56,11 +56,15 @@ def run_case(desc):
         bad = f"run raised {exc!r} (cause {exc.__cause__!r}) although every flaky store operation succeeds within retry={retry_n}"
     else:
         # attempts: each operation attempted at most n times and exactly (failures + 1) times
+        users = collections.Counter()
+        for i in S.reg:
+            users[S.store_name[i]] += 1  # a store can be shared by a stored node and its alias source
         for (kind, name), j in flaky.items():
             base = {"wr_before": "wr"}.get(kind, kind)
             got = H.attempts_store.get((base, name), 0)
-            if got not in (0, j + 1):
-                bad = f"flaky store operation {base} {name} fails first {j} attempt(s), retry={retry_n}: attempted {got} times (expected {j + 1})"
+            allowed = {0} | {j + u for u in range(1, users[name] + 1)}
+            if got not in allowed:
+                bad = f"flaky store operation {base} {name} fails first {j} attempt(s), retry={retry_n}: attempted {got} times (expected one of {sorted(allowed)})"
                 break
         if bad is None:
             d = S.check_counts_retry(exp, flaky) if flaky else S.check_counts(exp)
